@@ -5,6 +5,7 @@ from onl.packet import Packet, TCPPacketGenerator, TCPSink, TCPReno, TCPCubic
 from onl.packet.tcp_generator import Flow
 
 MSS = 512
+_HELD = {}
 
 
 class FaultLink:
@@ -64,10 +65,13 @@ def make_sender(w, case, out):
     size = case.get('segments', 4) * MSS + case.get('tail', 0)
     pace = case.get('pace')
     msg = case.get('msg', MSS)
-    flow = Flow(flow_id=case.get('fid', 1), src='h0', dst='h1', start_time=case.get('start', 0) or None,
+    held = _HELD.get('flow') if case.get('reuse_flow') else None
+    flow = held or Flow(flow_id=case.get('fid', 1), src='h0', dst='h1', start_time=case.get('start', 0) or None,
                 finish_time=None if case.get('no_finish') else case.get('finish', 1e12), size=size,
                 arrival_dist=(lambda: pace) if pace else None,
                 size_dist=(lambda: msg) if pace else ((lambda: case['chunk']) if case.get('chunk') else None))
+    if case.get('reuse_flow'):
+        _HELD['flow'] = flow            # the description of the flow is an object of the user: the next run uses it again
     if case.get('cc', 'reno') == 'cubic':
         cc = TCPCubic()
     else:
